@@ -471,6 +471,15 @@ pub fn c05(spec: &WorldSpec, ex: &Exec) -> Option<Viol> {
                             if got == 0 && disposed_meanwhile {
                                 continue;
                             }
+                            // another upstream failed from inside this very delivery chain and its
+                            // Error reached the sink first: the sink can be failed only once
+                            let overtaken = got == 0
+                                && p_errs[pu].len() == 1
+                                && !p_term[pu]
+                                && ex.trace[fr.start + 1..i].iter().any(|e| matches!(e, Ev::Send(Actor::Sub(_), M::Err(id2)) if *id2 == p_errs[pu][0]));
+                            if overtaken {
+                                continue;
+                            }
                             if got != 1 || p_term[pu] || p_errs[pu].len() != 1 {
                                 let clause = if p_term[pu] && got == 0 {
                                     "error-turned-into-completion"
